@@ -345,9 +345,29 @@ class C20(Prop):
         prog.append({"name": "root", "nodes": top, "bound": []})
         return prog
 
+    @staticmethod
+    def _same_signal_name_elsewhere(rng: random.Random) -> list[dict]:
+        """An ordering signal exposed by one nested graph and awaited outside, while an UNRELATED nested graph uses the same signal name
+        deeper inside and hides it (its selection names data outputs only): the ordering edge belongs to the container that exposes it."""
+        fn = gen._fn_node
+        ingest = {"name": "ingest", "nodes": [fn("fetch", [["x", None]], ["data"], {"b": "tag", "t": "fetch"}, emits=["done"])], "bound": []}
+        sink = {"name": "sink", "nodes": [fn("flush", [["y", None]], ["z"], {"b": "tag", "t": "flush"}, emits=["done"])], "bound": [], "selected": ["z"]}
+        prog = [ingest, sink]
+        archive_nodes = [{"name": "sink", "kind": "graph", "inner": 1}, fn("pack", [["z", None]], ["packed"], {"b": "tag", "t": "pack"})]
+        prog.append({"name": "archive", "nodes": archive_nodes, "bound": [], "selected": ["packed"]})
+        top = [{"name": "ingest", "kind": "graph", "inner": 0}, {"name": "archive", "kind": "graph", "inner": 2},
+               fn("announce", [["msg", None]], ["said"], {"b": "tag", "t": "announce"}, waitFor=["done"])]      # ordered after `ingest` by the signal alone
+        if rng.random() < 0.5:
+            top.append(fn("tail", [["packed", None], ["said", None]], ["end"], {"b": "tag", "t": "tail"}))
+        rng.shuffle(top)
+        prog.append({"name": "root", "nodes": top, "bound": []})
+        return prog
+
     def cases(self, rng: random.Random, tier: str) -> Iterable[dict]:
         for _ in range(4):
             yield {"program": self._hidden_inner_producer(rng)}
+        for _ in range(3):
+            yield {"program": self._same_signal_name_elsewhere(rng)}
         for _ in range(4):
             yield {"program": self._end_gates_two_levels(rng)}
         for _ in range(6):
